@@ -68,8 +68,19 @@ def run(ctx):
     # ---- 2. replay of the edge cover on a real allocator pair
     paths, nnodes, nedges = vf.path_cover(ideal.edges)
     inp = vf.write_json(os.path.join(ctx.work, "sid_paths.json"), {"paths": paths})
-    r = ctx.gotest("transport", H_TR, "^TestZZVStreamIdReplay$", env={"ZZV_IN": inp})
-    rs = r.of("summary")
+    if q:
+        g, m, rounds, seq = 8, 1000, 2, 300
+        cg, cm, crounds = 8, 1000, 2
+    else:
+        g, m, rounds, seq = 32, 10000, 2, 5000
+        cg, cm, crounds = 32, 10000, 2
+    out1 = os.path.join(ctx.work, "sid_alloc.ndjson")
+    r = ctx.gotest("transport", H_TR, "^(TestZZVStreamIdReplay|TestZZVStreamIdTrace)$", race=True, timeout=1500,
+                   env={"ZZV_IN": inp, "ZZV_OUT": out1, "ZZV_G": g, "ZZV_M": m, "ZZV_ROUNDS": rounds, "ZZV_SEQ": seq,
+                        "ZZV_FRESH": 1000 if q else 30000, "ZZV_CORRUPT": os.environ.get("ZZV_CORRUPT", "")})
+    r1 = r
+    tsum = {x.get("test"): x for x in r.of("summary")}
+    rs = [tsum["replay"]] if tsum.get("replay") else []
     if not rs:
         raise vf.Infra("replay harness produced no summary:\n" + r.out[-2000:])
     mism = r.of("mismatch")
@@ -96,45 +107,29 @@ def run(ctx):
             drift.append(mm)
 
     # ---- 3. trace validation: allocator pair, then a real connection pair
-    if q:
-        g, m, rounds, seq = 8, 1500, 2, 300
-        cg, cm, crounds = 8, 1500, 2
-    else:
-        g, m, rounds, seq = 32, 10000, 2, 5000
-        cg, cm, crounds = 32, 10000, 2
-    out1 = os.path.join(ctx.work, "sid_alloc.ndjson")
-    r1 = ctx.gotest("transport", H_TR, "^TestZZVStreamIdTrace$", race=True,
-                    env={"ZZV_OUT": out1, "ZZV_G": g, "ZZV_M": m, "ZZV_ROUNDS": rounds, "ZZV_SEQ": seq,
-                         "ZZV_FRESH": 2000 if q else 30000,
-                         "ZZV_CORRUPT": os.environ.get("ZZV_CORRUPT", "")})
-    s1 = (r1.of("summary") or [None])[0]
+    s1 = tsum.get("trace")
     if not s1:
         raise vf.Infra("trace harness produced no summary:\n" + r1.out[-2000:])
     b1 = statement_broken(s1)
     if b1:
         ctx.finding("StreamId:allocator:" + "+".join(sorted(b1)),
                     "StreamIDAllocator pair, %d allocations by %d goroutines: %s" % (s1["allocated"], s1["goroutines"], b1), s1)
-    v1 = validate(ctx, "sid_alloc", out1, "allocator")
-
     out2 = os.path.join(ctx.work, "sid_conn.ndjson")
-    r2 = ctx.gotest("peer", H_PEER, "^TestZZVStreamIdConn$", race=True,
-                    env={"ZZV_OUT": out2, "ZZV_G": cg, "ZZV_M": cm, "ZZV_ROUNDS": crounds})
-    s2 = (r2.of("summary") or [None])[0]
+    out3 = os.path.join(ctx.work, "sid_fresh.ndjson")
+    r3 = ctx.gotest("peer", H_PEER, "^(TestZZVStreamIdConn|TestZZVStreamIdConnReplay|TestZZVStreamIdFresh)$", race=True, timeout=1500,
+                    env={"ZZV_IN": inp, "ZZV_OUT_CONN": out2, "ZZV_G": cg, "ZZV_M": cm, "ZZV_ROUNDS": crounds,
+                         "ZZV_OUT": out3, "ZZV_FRESH": 2000 if q else 40000, "ZZV_FRESH_G": 6 if q else 8,
+                         "ZZV_REAL_EVERY": 20 if q else 40})
+    sums = {x.get("test"): x for x in r3.of("summary")}
+    s2 = sums.get("conn")
     if not s2:
-        raise vf.Infra("connection harness produced no summary:\n" + r2.out[-2000:])
+        raise vf.Infra("connection harness produced no summary:\n" + r3.out[-2000:])
     b2 = statement_broken(s2)
     if b2:
         ctx.finding("StreamId:connection:" + "+".join(sorted(b2)),
                     "both ends of a real connection pair (peer.Connection.NextStreamID), %d allocations by %d goroutines: %s"
                     % (s2["allocated"], s2["goroutines"], b2), s2)
-    v2 = validate(ctx, "sid_conn", out2, "connection")
-
     # ---- 4. connections: replay with Close (sequential), fresh pairs under a burst, close-then-allocate
-    out3 = os.path.join(ctx.work, "sid_fresh.ndjson")
-    r3 = ctx.gotest("peer", H_PEER, "^(TestZZVStreamIdConnReplay|TestZZVStreamIdFresh)$", race=True, timeout=1500,
-                    env={"ZZV_IN": inp, "ZZV_OUT": out3, "ZZV_FRESH": 3000 if q else 40000, "ZZV_G": 6 if q else 8,
-                         "ZZV_REAL_EVERY": 20 if q else 40})
-    sums = {x.get("test"): x for x in r3.of("summary")}
     s3, s4 = sums.get("connreplay"), sums.get("fresh")
     if not s3 or not s4:
         raise vf.Infra("connection replay / fresh harness produced no summary:\n" + r3.out[-2000:])
@@ -157,7 +152,31 @@ def run(ctx):
         ctx.finding("StreamId:fresh-connection:" + "+".join(sorted(b4)),
                     "%d fresh connection pairs (%d real), first allocations by %d concurrent goroutines, Close racing with / "
                     "preceding allocations: %s" % (s4["fresh_pairs"], s4["real_pairs"], s4["goroutines"], b4), s4)
-    v4 = validate(ctx, "sid_fresh", out3, "fresh-connection")
+    # one TLC run validates the three recorded files (executions are separated by Reset events)
+    allf = os.path.join(ctx.work, "sid_all.ndjson")
+    bounds = []
+    with open(allf, "w") as w:
+        n = 0
+        for what, fn in (("allocator", out1), ("connection", out2), ("fresh-connection", out3)):
+            for line in open(fn):
+                if line.strip():
+                    w.write(line)
+                    n += 1
+            bounds.append((n, what))
+    v = ctx.validate_trace("TraceStreamId", "TraceStreamId.cfg", allf, name="sid_all", timeout=1500)
+    if not v["accepted"]:
+        at = v["hw"] or 0
+        what = next((wh for n_, wh in bounds if at <= n_), bounds[-1][1])
+        if v["violated"] and v["violated"] != "rejected":
+            ctx.finding("StreamId:%s:trace-invariant:%s" % (what, v["violated"]),
+                        "identifiers allocated by the real %s violate %s of StreamId.tla" % (what, v["violated"]),
+                        {"tlc_tail": v["res"].out[-2500:]})
+        else:
+            ctx.finding("StreamId:%s:trace-rejected" % what,
+                        "identifiers allocated by the real %s are not a behaviour of StreamId.tla (zero, below the counter = "
+                        "handed out twice, or of the wrong parity): event #%s %s" % (what, v["hw"], v["event"]),
+                        {"event_index": v["hw"], "event": v["event"], "context": v["context"]})
+    v1 = v2 = v4 = v
 
     if drift and not ctx.violations:
         raise vf.Infra("binding drift: the real allocator no longer follows the k=0 arithmetic of StreamId.tla although "
